@@ -1,2 +1,356 @@
-// Package c03: correspondence harness for property C03 (stub — registers nothing yet).
+// Package c03: correspondence harness for property C03 — failure of a critical
+// task drives a live environment to ERROR. Every case is one world of the
+// whole-core simulator (verifharness/sim): the real core in a child process.
 package c03
+
+import (
+	"encoding/json"
+	"fmt"
+	"os"
+	"sort"
+	"strings"
+
+	"verifharness/fw"
+	"verifharness/rng"
+	"verifharness/sim"
+	"verifharness/sx"
+)
+
+func runImpl(input string) (string, error) {
+	s, err := parseScenario(input)
+	if err != nil {
+		return "(badinput)", nil
+	}
+	o, err := runScenario(s, false)
+	if err != nil {
+		if sim.IsInfra(err) {
+			stat.Lock()
+			stat.inconclusiveNo++
+			stat.Unlock()
+		}
+		return "", err
+	}
+	if o.pre != s.live {
+		return "", &sim.InfraError{What: "environment was in " + o.pre + " instead of " + s.live + " before the injection"}
+	}
+	return o.sx(), nil
+}
+
+// ---- generator ---------------------------------------------------------------------------------
+
+type layout struct {
+	tasks  []taskSpec
+	victim int
+}
+
+// every layout of 1..3 tasks on 1..2 hosts (host numbering canonical: the first task is on host 1)
+func layouts() []layout {
+	var out []layout
+	hostSets := map[int][][]int{1: {{1}}, 2: {{1, 1}, {1, 2}}, 3: {{1, 1, 1}, {1, 2, 1}, {1, 1, 2}, {1, 2, 2}}}
+	for n := 1; n <= 3; n++ {
+		for _, hs := range hostSets[n] {
+			for m := 0; m < 1<<n; m++ {
+				ts := make([]taskSpec, n)
+				for i := range ts {
+					ts[i] = taskSpec{crit: m&(1<<i) != 0, host: hs[i]}
+				}
+				for v := 0; v < n; v++ {
+					out = append(out, layout{ts, v})
+				}
+			}
+		}
+	}
+	return out
+}
+
+func mk(live string, l layout, kind, instant string) *scenario {
+	return &scenario{live: live, tasks: l.tasks, victim: l.victim, kind: kind, instant: instant}
+}
+
+func tagsOf(s *scenario) []string {
+	crit := "victim-noncritical"
+	if s.tasks[s.victim].crit {
+		crit = "victim-critical"
+	}
+	hosts := map[int]bool{}
+	for _, t := range s.tasks {
+		hosts[t.host] = true
+	}
+	pos := "victim-middle"
+	if s.victim == 0 {
+		pos = "victim-first"
+	}
+	if s.victim == len(s.tasks)-1 {
+		pos = "victim-last"
+		if s.victim == 0 {
+			pos = "victim-only"
+		}
+	}
+	return []string{"live-" + s.live, "kind-" + s.kind, "instant-" + s.instant, crit, pos,
+		fmt.Sprintf("tasks-%d", len(s.tasks)), fmt.Sprintf("hosts-%d", len(hosts))}
+}
+
+func valid(s *scenario) bool {
+	if s.instant == "race" || s.instant == "racelate" {
+		if len(s.tasks) < 2 {
+			return false
+		}
+		// the task whose reply is held back must survive an executor/agent loss: it has to be on another host
+		switch s.kind {
+		case "EXEC", "EXEC0", "AGENT", "AGENT0":
+			other := false
+			for _, t := range s.tasks {
+				other = other || t.host != s.tasks[s.victim].host
+			}
+			if !other {
+				return false
+			}
+		}
+	}
+	if s.instant == "raceself" {
+		switch s.kind {
+		case "FAILED", "LOST", "KILLED", "TERROR", "FINISHED":
+		default:
+			return false
+		}
+	}
+	return true
+}
+
+func generate(tier string, r *rng.R) []fw.Case {
+	ls := layouts()
+	seen := map[string]bool{}
+	var out []fw.Case
+	add := func(s *scenario) {
+		if !valid(s) {
+			return
+		}
+		k := s.String()
+		if seen[k] {
+			return
+		}
+		seen[k] = true
+		out = append(out, fw.Case{Input: k, Tags: tagsOf(s)})
+	}
+	pickLayout := func(wantCrit bool, live, k, inst string) layout {
+		for {
+			l := rng.Pick(r, ls)
+			if l.tasks[l.victim].crit == wantCrit && valid(mk(live, l, k, inst)) {
+				return l
+			}
+		}
+	}
+	// stratum: every (live, kind, instant) with a critical and a non-critical victim
+	for _, live := range []string{"CONFIGURED", "RUNNING"} {
+		for _, k := range kinds {
+			for _, inst := range []string{"idle", "race", "racelate", "burst"} {
+				add(mk(live, pickLayout(true, live, k, inst), k, inst))
+				add(mk(live, pickLayout(false, live, k, inst), k, inst))
+			}
+		}
+	}
+	// the smallest worlds, always
+	one := layout{[]taskSpec{{true, 1}}, 0}
+	for _, live := range []string{"CONFIGURED", "RUNNING"} {
+		for _, k := range kinds {
+			add(mk(live, one, k, "idle"))
+		}
+	}
+	if tier == "thorough" {
+		// a handful of worlds that sit in the core's 90 s response timeout
+		for _, sc := range []*scenario{
+			mk("CONFIGURED", layout{[]taskSpec{{true, 1}, {true, 2}}, 0}, "FAILED", "raceself"),
+			mk("RUNNING", layout{[]taskSpec{{true, 1}, {false, 2}}, 0}, "KILLED", "raceself"),
+			mk("RUNNING", layout{[]taskSpec{{true, 1}, {false, 2}}, 1}, "LOST", "raceself"),
+			mk("CONFIGURED", layout{[]taskSpec{{true, 1}}, 0}, "FAILED", "raceself"),
+		} {
+			add(sc)
+		}
+		for len(out) < 2300 {
+			l := rng.Pick(r, ls)
+			add(mk(rng.Pick(r, []string{"CONFIGURED", "RUNNING"}), l, rng.Pick(r, kinds), rng.Pick(r, []string{"idle", "race", "racelate", "burst", "burst"})))
+		}
+	}
+	return out
+}
+
+// search: the wider stream used after a break — a fresh random sample, kept small (every case is a world)
+func search(r *rng.R) []fw.Case {
+	ls := layouts()
+	var out []fw.Case
+	seen := map[string]bool{}
+	for len(out) < 250 {
+		s := mk(rng.Pick(r, []string{"CONFIGURED", "RUNNING"}), rng.Pick(r, ls), rng.Pick(r, kinds), rng.Pick(r, []string{"idle", "race", "racelate", "burst"}))
+		if !valid(s) || seen[s.String()] {
+			continue
+		}
+		seen[s.String()] = true
+		out = append(out, fw.Case{Input: s.String(), Tags: tagsOf(s)})
+	}
+	return out
+}
+
+func shrinkCands(input string) []string {
+	s, err := parseScenario(input)
+	if err != nil {
+		return nil
+	}
+	var out []string
+	push := func(c *scenario) {
+		if valid(c) {
+			out = append(out, c.String())
+		}
+	}
+	// drop a task that is not the victim
+	for i := range s.tasks {
+		if i == s.victim {
+			continue
+		}
+		c := *s
+		c.tasks = append(append([]taskSpec{}, s.tasks[:i]...), s.tasks[i+1:]...)
+		if i < s.victim {
+			c.victim--
+		}
+		push(&c)
+	}
+	if s.instant != "idle" {
+		c := *s
+		c.instant = "idle"
+		push(&c)
+	}
+	return out
+}
+
+func nontrivial(input, obs string) bool {
+	s, err := parseScenario(input)
+	if err != nil {
+		return false
+	}
+	n, err := sx.Parse(obs)
+	if err != nil || !n.IsList {
+		return false
+	}
+	return len(s.tasks) >= 2 || s.tasks[s.victim].crit
+}
+
+var assumptions = []string{
+	"OBSERVED (filled at the end of the run; not proved): time from the injection to the first GetEnvironment that reports ERROR",
+	"settle window: an environment that has not reported ERROR " + settleWindow.String() + " after the injection (and after the racing transition returned) is observed as 'did not leave its state'; the core's own delay is a 500 ms timer + GO_ERROR (no task command) + one STOP round trip to simulated executors that answer at once",
+	"simulated executors: one executor per host and environment (the core re-uses the executor of an offer), tasks answer every command with success unless scripted; a task that announced TASK_INTERNAL_ERROR still answers STOP with success",
+	"the core is not PARTITION_AWARE: TASK_DROPPED/UNREACHABLE/GONE are never sent by Mesos and are not generated",
+	"wall-clock order assumed by the model's schedule: replies of the in-flight transition, its end, a STOP_ACTIVITY queued by handleDeviceEvent, then the watcher's 500 ms timer",
+}
+
+func teardown() {
+	stat.Lock()
+	defer stat.Unlock()
+	avg := int64(0)
+	if stat.reached > 0 {
+		avg = stat.sumMs / int64(stat.reached)
+	}
+	msg := fmt.Sprintf("OBSERVED (not proved): %d worlds run, %d reached ERROR; time from the injection to the first GetEnvironment reporting ERROR: max %d ms (%s), mean %d ms; %d worlds inconclusive (infrastructure)",
+		stat.n, stat.reached, stat.maxMs, stat.maxCase, avg, stat.inconclusiveNo)
+	assumptions[0] = msg
+	b, _ := json.MarshalIndent(map[string]any{"worlds": stat.n, "reached_error": stat.reached, "max_ms": stat.maxMs, "max_case": stat.maxCase,
+		"mean_ms": avg, "inconclusive": stat.inconclusiveNo, "settle_window_ms": settleWindow.Milliseconds()}, "", " ")
+	os.MkdirAll("/verif/.work/C03", 0o755)
+	os.WriteFile("/verif/.work/C03/observed.json", b, 0o644)
+}
+
+func init() {
+	fw.Register(&fw.Property{
+		ID:         "C03",
+		Generate:   generate,
+		RunImpl:    runImpl,
+		Nontrivial: nontrivial,
+		Rule: "one simulated world per case: workflow of 1..3 task roles (critical or not) on 1..2 hosts, environment brought to CONFIGURED or RUNNING through the gRPC API, " +
+			"one failure (TASK_FAILED/LOST/KILLED/ERROR/FINISHED status, executor FAILURE, agent FAILURE with or without task updates, TASK_INTERNAL_ERROR device event) of a chosen victim, " +
+			"idle or while START_ACTIVITY/STOP_ACTIVITY is in flight (parked at another task's reply released at once / 900 ms later, all replies and the failure back to back, or parked at the victim's own reply); " +
+			"observed after the settle window: environment state, state/status of the root and of every task role, run events, end-of-run stamps, STOP commands, result of the racing transition; " +
+			"quick = every (live state, kind, instant) with a critical and a non-critical victim on a random layout; non-trivial = >= 2 tasks or a critical victim; distinct by input text",
+		Shrink:      shrinkCands,
+		Search:      search,
+		Exhaustive:  func(string) bool { return false },
+		Workers:     16,
+		Teardown:    teardown,
+		TrustedBase: []string{"harness/sim (simulated Mesos master/agents/executors, Consul KV, git workflow repository) and /repo/core/verif_hooks.go (core.RunForVerif)", "harness/props/c03 (scenario script, settle window, observation)"},
+		Assumptions: assumptions,
+	})
+	fw.RegisterChild("c03probe", probeMain)
+}
+
+// probeMain: VERIF_CHILD=c03probe vh [-n N] '<scenario>' … — runs scenarios verbosely (development aid;
+// with -n N: N repetitions of each scenario in parallel batches, printing the distinct observations).
+func probeMain(args []string) {
+	reps := 1
+	if len(args) >= 2 && args[0] == "-n" {
+		fmt.Sscanf(args[1], "%d", &reps)
+		args = args[2:]
+	}
+	for _, a := range args {
+		s, err := parseScenario(a)
+		if err != nil {
+			fmt.Println("bad scenario:", err)
+			continue
+		}
+		if reps > 1 {
+			counts := map[string]int{}
+			type res struct {
+				o   string
+				err error
+			}
+			ch := make(chan res)
+			par := 16
+			todo := reps
+			for todo > 0 {
+				n := par
+				if todo < n {
+					n = todo
+				}
+				for i := 0; i < n; i++ {
+					go func() {
+						o, err := runScenario(s, false)
+						if err != nil {
+							ch <- res{"", err}
+							return
+						}
+						ch <- res{o.sx(), nil}
+					}()
+				}
+				for i := 0; i < n; i++ {
+					r := <-ch
+					if r.err != nil {
+						counts["ERR "+r.err.Error()]++
+					} else {
+						counts[r.o]++
+					}
+				}
+				todo -= n
+			}
+			fmt.Println(a)
+			var ks []string
+			for k := range counts {
+				ks = append(ks, k)
+			}
+			sort.Strings(ks)
+			for _, k := range ks {
+				fmt.Printf("  %5d × %s\n", counts[k], k)
+			}
+			continue
+		}
+		o, err := runScenario(s, true)
+		switch {
+		case err != nil && sim.IsInfra(err):
+			fmt.Printf("%s\n  INCONCLUSIVE %v\n", a, err)
+		case err != nil:
+			fmt.Printf("%s\n  ERROR %v\n", a, err)
+		default:
+			fmt.Printf("%s\n  %s\n  kills=%v tError=%dms\n", a, o.sx(), o.kills, o.tErrorMs)
+			if os.Getenv("C03_TRACE") != "" {
+				fmt.Print(o.log)
+			}
+		}
+	}
+}
+
+var _ = strings.TrimSpace
